@@ -128,6 +128,19 @@ def run_execution(cfg, prefix, record=False):
         except Exception as e:    # noqa: BLE001
             marks["disconnect_exc"] = e
         marks["rx_at_disconnect"] = rx_count()
+        if cfg.get("reconnect"):
+            # second session on the same writer object: write() connects again by itself
+            rec = {"k": len(stmts), "stmt": "G1 X9", "exc": None}
+            try:
+                w.write(b"G1 X9\n")
+            except Exception as e:    # noqa: BLE001
+                rec["exc"] = e
+            rec["rx_at_return"] = rx_count()
+            marks["second_session"] = rec
+            try:
+                w.disconnect(True)
+            except Exception as e:    # noqa: BLE001
+                marks["disconnect2_exc"] = e
         marks["done"] = True
     with ex:
         leaked = ex.run(body)
@@ -168,6 +181,8 @@ def check_execution(cfg, ex, marks, leaked):
     sent = fw.user
     ncalls = len(marks["calls"])
     want = stmts[:ncalls] if lost_k is None else stmts[:min(ncalls, lost_k + 1)]
+    if "second_session" in marks:
+        sent = sent[:len(want)] if sent[:len(want)] == want else sent
     if sent != want:
         P.append(("statements-not-delivered-once-in-order", f"device received {sent}, caller wrote {want}"))
     # per call
@@ -228,6 +243,14 @@ def check_execution(cfg, ex, marks, leaked):
                 name, val = t[2]
                 if rec["readings"].get(name) != val:
                     P.append(("reading-not-available-at-return", f"write({k}) [{b}] returned but get_parameter({name!r}) = {rec['readings'].get(name)!r}, expected {val}"))
+    # second session: the statement is delivered and the call returns (released by its own ack or - known finding - by
+    # the stale ok of the second handshake, which no caller can drain because write() connects by itself)
+    if "second_session" in marks and lost_k is None:
+        rec = marks["second_session"]
+        if "G1 X9" not in fw.user[len(want):] and sent == want:
+            P.append(("second-session-statement-not-delivered", f"after disconnect + implicit reconnect the device received {fw.user}"))
+        if rec["exc"] is not None and not stale_source and not any(b in ERRORS for b in beh):
+            P.append(("second-session-raised", f"write() in the second session raised {rec['exc']!r}"))
     # (f) disconnect(wait=True)
     if "disconnect_exc" in marks and lost_k is None:
         if stale_source:
@@ -235,8 +258,8 @@ def check_execution(cfg, ex, marks, leaked):
         else:
             P.append(("disconnect-raised", f"disconnect(True) raised {marks['disconnect_exc']!r}"))
     if lost_k is None and marks["calls"]:
-        last_terms = [i for i, (_, t) in enumerate(produced) if t[0] in ("ack", "err", "extra-ok")]
-        if last_terms and marks["rx_at_disconnect"] <= max(i for i, (_, t) in enumerate(produced) if t[0] in ("ack", "err")):
+        last_terms = [i for i, (_, t) in enumerate(produced) if t[0] in ("ack", "err") and t[1] < len(stmts)]
+        if last_terms and marks["rx_at_disconnect"] <= max(last_terms):
             if stale_source:
                 P.append((f"stale-ok:{stale_source}", "disconnect(True) returned before the reply to the last statement was consumed (shifted acknowledgements)"))
             else:
@@ -349,6 +372,11 @@ def plan(tier):
                 items.append(({**c, "mode": "socket"}, 0, None))
             for c in cfgs(two, behs, ("Q",), (None,), (False,), False):
                 items.append(({**c, "mode": "socket"}, 1, None))
+        for behs in (("ok", "report+ok"), ("error", "ok"), ("status+ok", "report-in-ok")):
+            for c in cfgs(two, behs, ("Q", "L"), (None, "start"), (False, True), True):
+                items.append(({**c, "reconnect": True}, 0, None))
+            for c in cfgs(two, behs, ("Q",), (None,), (False,), False):
+                items.append(({**c, "reconnect": True}, 1, None))
         for loss_mode in ("eof",):
             for behs in (("loss", "ok"), ("ok", "loss")):
                 for c in cfgs(two, behs, ("Q", "L"), (None,), (False,), True):
